@@ -1325,6 +1325,7 @@ class Gen:
         onerr = self.p['onerror_mode']
         hl = None
         main += self.declarations(sc)
+        n_decl = len(main)
         self.add_array_params()
         main += self.implicit_array_first_use(sc)
         # a parameter may have the name of a DIM SHARED variable: inside the
@@ -1485,7 +1486,12 @@ class Gen:
                     for c in (lo, hi):
                         if r.random() < 0.6:
                             deftypes[c] = r.choice(tys)
-        prog = {'tabs': r.random() < 0.2, 'deftypes': deftypes, 'strip_single': bool(self.p.get('deftype')) and r.random() < 0.6,
+        procs_at = None
+        if self.procs and r.random() < self.p.get('procs_mid', 0.12):
+            # SUB / FUNCTION definitions written in the middle of the
+            # module-level code (after the declarations)
+            procs_at = r.randint(n_decl, len(main))
+        prog = {'tabs': r.random() < 0.2, 'deftypes': deftypes, 'procs_at': procs_at, 'strip_single': bool(self.p.get('deftype')) and r.random() < 0.6,
                 'types': self.types, 'main': main,
                 'procs': [{k: v for k, v in p.items()
                            if k in ('kind', 'name', 'params', 'static', 'body')}
